@@ -524,11 +524,12 @@ example : defConstsOf (.sequenceOf .any (.sequenceOf (.range 0 3 false) (.intege
 -- zoo_shape::S5 ::= SEQUENCE { f0 INTEGER (0..7) DEFAULT 3 }
 example : defConstsOf (Src.sequenceSrc (.cons (.default (.int 3)) (.integer (some 0) (some 7) false) .nil) none)
     = .seq 1 1 none (.cons (.d (.int 3)) (.int (some 0) (some 7) false 8 false) .nil) := by rfl
--- zoo_set::SetX ::= SET { a [0] INTEGER (0..3), b [1] BOOLEAN, ..., c [2] INTEGER (0..3) OPTIONAL, d [3] BOOLEAN OPTIONAL }
+-- zoo_set::SetX ::= SET { b [1] BOOLEAN, a [0] INTEGER (0..3), ..., d [3] BOOLEAN OPTIONAL, c [2] INTEGER (0..3) OPTIONAL }
+-- after `sort_fields_canonically` (root components by tag, extension additions as written): a, b, d, c
 example : defConstsOf (.set (.cons .mandatory (.integer (some 0) (some 3) false) (.cons .mandatory .boolean
-      (.cons .optional (.integer (some 0) (some 3) false) (.cons .optional .boolean .nil)))) (some 1))
+      (.cons .optional .boolean (.cons .optional (.integer (some 0) (some 3) false) .nil)))) (some 1))
     = .seq 0 4 (some 1) (.cons .m (.int (some 0) (some 3) false 8 false) (.cons .m .bool
-      (.cons .o (.int (some 0) (some 3) false 8 false) (.cons .o .bool .nil)))) := by rfl
+      (.cons .o .bool (.cons .o (.int (some 0) (some 3) false 8 false) .nil)))) := by rfl
 -- zoo_nested::DefX ::= SEQUENCE { a BOOLEAN, ..., b INTEGER (0..7) DEFAULT 3, c BOOLEAN DEFAULT TRUE }
 example : defConstsOf (Src.sequenceSrc (.cons .mandatory .boolean .nil)
       (some (.cons (.default (.int 3)) (.integer (some 0) (some 7) false) (.cons (.default (.bool true)) .boolean .nil))))
